@@ -90,8 +90,12 @@ func TestPropPPPoEIPCP(t *testing.T) {
 
 // ---------------------------------------------------------------- nexus.Client hash-based central allocation
 
-// nexusHash is FNV-1a 64 as documented for the "deterministic hash" allocation; used ONLY to label and steer
-// cases (collision-free id sets vs colliding ones), never by the oracle.
+// nexusHash is FNV-1a 64 as documented for the "deterministic hash" allocation (written from the documentation, not
+// copied from pkg/nexus). It labels and steers cases (collision-free id sets vs colliding ones) and CLASSIFIES a
+// duplicate the oracle has found: KF-C01-4 records exactly "two ids whose FNV-1a hash mod usable hosts is equal are
+// handed one address". Only that shape may report under the listed signature C01/nexus/duplicate; a duplicate between
+// two ids whose reference slots differ has another cause and reports as C01/nexus/duplicate/ids-hash-to-different-slots
+// (never listed). It never decides WHETHER something is a violation.
 func nexusHash(s string) uint64 {
 	var h uint64 = 14695981039346656037
 	for i := 0; i < len(s); i++ {
@@ -106,6 +110,35 @@ type nexusPool struct {
 	c      *nexus.Client
 	ids    map[string]string // model subscriber -> generated subscriber id
 	poolID string
+	hosts  uint64
+	ft     fataler           // nil in plain replays: an unlisted classification then panics with the VIOLATION text
+	held   map[string]string // model subscriber -> value handed out and not given up (adapter's own ledger, from return values only)
+	log    []string
+}
+
+// classifyDuplicate runs before the model sees the value: a value handed to sub while another subscriber still holds
+// it is the recorded hash collision only if the independent reference puts both ids into one slot.
+func (n *nexusPool) classifyDuplicate(sub, ip string) {
+	for _, o := range subs {
+		if o == sub || n.held[o] != ip {
+			continue
+		}
+		a, b := nexusHash(n.ids[o])%n.hosts, nexusHash(n.ids[sub])%n.hosts
+		if a == b {
+			return // the listed shape: the model reports it as C01/nexus/duplicate
+		}
+		const sig = "C01/nexus/duplicate/ids-hash-to-different-slots"
+		msg := fmt.Sprintf("alloc(%s=%q) -> %s which is held by %s=%q, although the ids hash to different slots (%d and %d of %d): not the recorded hash collision\nhistory: %s",
+			sub, n.ids[sub], ip, o, n.ids[o], b, a, n.hosts, strings.Join(n.log, "; "))
+		if n.ft == nil {
+			if !vstat.Known(sig) {
+				panic("VIOLATION sig=" + sig + ": " + msg)
+			}
+			return
+		}
+		vstat.Fail(n.ft, sig, "%s", msg)
+		return
+	}
 }
 
 func (n *nexusPool) start() {
@@ -118,11 +151,20 @@ func (n *nexusPool) start() {
 func (n *nexusPool) Alloc(sub string) (string, error) {
 	ip, err := n.c.AllocateIPForSubscriber(context.Background(), n.ids[sub])
 	synctest.Wait() // let the store's watch callbacks update the client's cache
+	n.log = append(n.log, fmt.Sprintf("alloc(%s)=%s,%s", sub, ip, okerr(err)))
+	if err == nil && ip != "" {
+		n.classifyDuplicate(sub, ip)
+		n.held[sub] = ip
+	}
 	return ip, err
 }
 func (n *nexusPool) Release(sub string) error {
 	err := n.c.ReleaseSubscriberIP(context.Background(), n.ids[sub])
 	synctest.Wait()
+	n.log = append(n.log, fmt.Sprintf("release(%s)=%s", sub, okerr(err)))
+	if err == nil {
+		delete(n.held, sub)
+	}
 	return err
 }
 func (n *nexusPool) Lookup(sub string) (string, bool) {
@@ -135,6 +177,7 @@ func (n *nexusPool) Reload(uint64) error {
 	_ = n.c.Stop()
 	synctest.Wait()
 	n.start()
+	n.log = append(n.log, "reload")
 	return nil
 }
 
@@ -181,7 +224,7 @@ func TestPropNexus(t *testing.T) {
 		var m *model
 		var cls []string
 		msg := inBubble(t, func(ft fataler) {
-			f := nexusFactory(ipn, ids)
+			f := nexusFactory(ipn, ids, ft)
 			m, cls = runHistory(ft, f, ops, runOpt{})
 		})
 		if msg != "" {
@@ -199,14 +242,17 @@ func TestPropNexus(t *testing.T) {
 
 // nexusFactory builds a nexus.Client over nexus.MemoryStore with one pool record and one subscriber record
 // per model subscriber (created inside the caller's synctest bubble).
-func nexusFactory(ipn *net.IPNet, ids map[string]string) pools.Factory {
+func nexusFactory(ipn *net.IPNet, ids map[string]string, ft ...fataler) pools.Factory {
 	ones, _ := ipn.Mask.Size()
 	hosts := uint64(1)<<uint(32-ones) - 2
 	return pools.Factory{
 		Info: pools.Info{Impl: "nexus", Class: fmt.Sprintf("nexus/%d", ones), Net: ipn, Unit: -1, Usable: hosts, Bubble: true,
 			Desc: fmt.Sprintf("nexus.Client pool %s ids %s", ipn, strings.Join(sortedVals(ids), ","))},
 		New: func(int) pools.Pool {
-			np := &nexusPool{store: nexus.NewMemoryStore(), ids: ids, poolID: "pool-1"}
+			np := &nexusPool{store: nexus.NewMemoryStore(), ids: ids, poolID: "pool-1", hosts: hosts, held: map[string]string{}}
+			if len(ft) > 0 {
+				np.ft = ft[0]
+			}
 			np.start()
 			ctx := context.Background()
 			if err := np.c.Pools.Put(ctx, np.poolID, &nexus.IPPool{ID: np.poolID, CIDR: ipn.String(), Type: "residential"}); err != nil {
